@@ -1,7 +1,353 @@
-"""C10 — not implemented yet (fail closed)."""
-from ..model import AnalysisError
+"""C10 Resequencing — guard structure of the wrapper, 'changes nothing else', traversal order."""
+
+from __future__ import annotations
+
+import ast
+from typing import Dict, List, Optional, Set, Tuple
+
+from ..cfg import Node
+from ..core import Ctx, Report, snippet, where
+from ..fold import known
+from ..intervals import NEG, POS, IntSet, NotInterval, cond_to_intset
+from ..model import Func, own_nodes, src
+from ..pathsem import function_paths, resolve_local
+from .common import chain, deep_resolve, mentions, reachable_without_edges
+
 PROPERTY = "C10"
 LEVEL = "other"
-EXPLANATION = "not implemented"
-def run(ctx, rep, tier):
-    raise AnalysisError("rules for C10 are not implemented yet")
+EXPLANATION = (
+    "Decides that every resequence method runs under the range-checking wrapper, that the wrapper's three guards accept "
+    "exactly start in 0..4294967295, step >= 1 when start > 0 (step forced to 0 when start is 0) and a result <= "
+    "4294967295 before anything is returned, that resequencing writes nothing but sequence numbers, and that items are "
+    "numbered in list order, descending into a group before numbering the group, with the increment skipped after the "
+    "last item. Does not decide that the numbers are exactly s, s+d, s+2d, ... (arithmetic over values)."
+)
+ASSUMPTIONS = ["functools.wraps does not alter the call protocol of the wrapper"]
+
+DECORATOR = "check_start_step_sequence"
+SEQ_MAX = 4294967295
+
+
+def run(ctx: Ctx, rep: Report, tier: str) -> None:  # noqa: C901
+    folder = ctx.folder
+    # ---------------------------------------------------------------- R10.1
+    rep.rule("R10.1")
+    reseq = [f for f in ctx.prog.funcs if f.name == "resequence" and f.cls is not None]
+    rep.instance(len(reseq))
+    rep.floor(2, "resequence methods")
+    for f in reseq:
+        if DECORATOR in f.decorators:
+            rep.ok(f.qualname, f"decorated with @{DECORATOR}", where=where(f))
+        else:
+            rep.violation(f.qualname, "decorators: " + (", ".join(f.decorators) or "none"), "resequence runs without the start/step/result range checks", where(f), inp=f"{f.cls.name}(...).resequence(start=4294967296)")
+        sig = f.params
+        if sig[:3] != [sig[0], "start", "step"] or f.node.args.kwarg is None:
+            rep.violation(f.qualname, f"signature {sig}", "the wrapper passes (obj, start, step, **kwargs) positionally", where(f))
+    dec = ctx.func(f"helpers.{DECORATOR}")
+    wrappers = [g for g in ctx.prog.funcs if g.parent is dec]
+    rep.require(len(wrappers) == 1, "the decorator no longer defines exactly one wrapper")
+    w = wrappers[0]
+    wcfg = ctx.cfg(w)
+    method_param = dec.params[0]
+    call_nodes = [n for n in wcfg.live if n.ast is not None and any(isinstance(x, ast.Call) and isinstance(x.func, ast.Name) and x.func.id == method_param for x in ast.walk(n.ast))]
+    rep.require(bool(call_nodes), "the wrapper no longer calls the wrapped method")
+    cn = call_nodes[0]
+    call = [x for x in ast.walk(cn.ast) if isinstance(x, ast.Call) and isinstance(x.func, ast.Name) and x.func.id == method_param][0]
+    rep.instance()
+    pos = [src(a) for a in call.args]
+    wp = w.params
+    if pos != wp[:3] or not any(k.arg is None for k in call.keywords):
+        rep.violation(w.qualname, snippet(call), f"the wrapped method must receive ({', '.join(wp[:3])}, **kwargs) unchanged and in this order", where(w, call))
+    else:
+        rep.ok(f"{w.qualname}: {snippet(call)}", "object, start, step, **kwargs forwarded in signature order", where=where(w, call))
+
+    # ---------------------------------------------------------------- R10.2
+    rep.rule("R10.2")
+    start, step = wp[1], wp[2]
+    fold = lambda env: (lambda x: folder.fold(x, w.module, env))  # noqa: E731
+
+    # accepted start: complement of the union of raise conditions that mention only `start`, on paths reaching the call
+    paths_to_call = [p for p in function_paths(wcfg) if any(n is cn for n, _ in p.nodes)]
+    rep.require(bool(paths_to_call), "no path reaches the wrapped call")
+    guards = [n for n in own_nodes(w.node) if isinstance(n, ast.If) and any(isinstance(s, ast.Raise) for s in n.body)]
+    pre_guards = [g for g in guards if wcfg.node_of(g.body[0]) is not None and _before(wcfg, g, cn)]
+    post_guards = [g for g in guards if g not in pre_guards]
+    acc_start = IntSet.all()
+    for g in pre_guards:
+        names = {x.id for x in ast.walk(g.test) if isinstance(x, ast.Name)}
+        if step in names:
+            continue
+        try:
+            bad = cond_to_intset(g.test, lambda x: isinstance(x, ast.Name) and x.id == start, fold({}))
+        except NotInterval:
+            continue
+        acc_start = acc_start.intersect(bad.complement())
+    rep.instance()
+    want = IntSet([(0, SEQ_MAX)])
+    if acc_start == want:
+        rep.ok(f"{w.qualname}: accepted start", str(acc_start), where=where(w))
+    else:
+        rep.violation(w.qualname, f"accepted start {acc_start}", f"the property names start in {want}", where(w), inp="resequence(start=4294967296) / resequence(start=-1)")
+    # accepted step when start > 0, and when start == 0
+    for sval, label in ((1, "start > 0"), (0, "start == 0")):
+        acc = IntSet.all()
+        for g in pre_guards:
+            names = {x.id for x in ast.walk(g.test) if isinstance(x, ast.Name)}
+            if step not in names:
+                continue
+            try:
+                bad = cond_to_intset(g.test, lambda x: isinstance(x, ast.Name) and x.id == step, fold({start: sval}))
+            except NotInterval:
+                continue
+            acc = acc.intersect(bad.complement())
+        rep.instance()
+        if sval == 1:
+            if acc == IntSet([(1, POS)]):
+                rep.ok(f"{w.qualname}: accepted step when {label}", str(acc), where=where(w))
+            else:
+                rep.violation(w.qualname, f"accepted step when {label}: {acc}", "a step below 1 with a positive start must raise", where(w), inp="resequence(start=10, step=0)")
+        else:
+            if acc == IntSet.all():
+                rep.ok(f"{w.qualname}: step when {label}", "unconstrained (it is overwritten)", nontrivial=False, where=where(w))
+            else:
+                rep.violation(w.qualname, f"accepted step when {label}: {acc}", "start 0 removes all numbers whatever the step", where(w), inp="resequence(start=0, step=0)")
+    # start == 0 forces step = 0
+    rep.instance()
+    forced = False
+    for p in paths_to_call:
+        zero_path = any(isinstance(t, ast.Name) and t.id == start and not truth for t, truth in p.atoms)
+        if zero_path:
+            v = p.env.get(step)
+            if isinstance(v, ast.Constant) and v.value == 0:
+                forced = True
+            else:
+                forced = False
+                break
+    if forced:
+        rep.ok(f"{w.qualname}: start == 0", "step is forced to 0 before the call", where=where(w))
+    else:
+        rep.violation(w.qualname, "start == 0", "step is not forced to 0 when start is 0: numbers would not all be removed", where(w), inp="resequence(start=0, step=10)")
+    # result guard and returned value
+    rep.instance()
+    res_name = None
+    if isinstance(cn.ast, ast.Assign) and isinstance(cn.ast.targets[0], ast.Name):
+        res_name = cn.ast.targets[0].id
+    acc_res = IntSet.all()
+    for g in post_guards:
+        try:
+            bad = cond_to_intset(g.test, lambda x: isinstance(x, ast.Name) and x.id == res_name, fold({}))
+        except NotInterval:
+            continue
+        acc_res = acc_res.intersect(bad.complement())
+    if acc_res == IntSet([(NEG, SEQ_MAX)]):
+        rep.ok(f"{w.qualname}: accepted result", str(acc_res), where=where(w))
+    else:
+        rep.violation(w.qualname, f"accepted result {acc_res}", "a last number above 4294967295 must raise", where(w), inp="Acl(2 items).resequence(start=4294967295, step=1)")
+    rep.instance()
+    rets = [n for n in wcfg.live if n.kind == "stmt" and isinstance(n.ast, ast.Return)]
+    bad_ret = [r for r in rets if r.ast.value is None or src(r.ast.value) != res_name]
+    if bad_ret or not rets:
+        rep.violation(w.qualname, snippet(bad_ret[0].ast) if bad_ret else "no return", "the wrapper does not return the wrapped method's result", where(w))
+    else:
+        # every return is dominated by the result guard's passing edge
+        okdom = True
+        for g in post_guards:
+            gn = [c for c in wcfg.live if c.kind == "cond" and any(c.ast is x for x in ast.walk(g.test))]
+            for c in gn:
+                pass
+        for r in rets:
+            if not all(any(n.kind == "cond" and res_name in {x.id for x in ast.walk(n.ast) if isinstance(x, ast.Name)} for n, _ in p.nodes) for p in function_paths(wcfg) if p.end is wcfg.exit):
+                okdom = False
+        if okdom:
+            rep.ok(f"{w.qualname}: return {res_name}", "the result; every normal path tests it against the maximum", where=where(w))
+        else:
+            rep.violation(w.qualname, f"return {res_name}", "a normal path returns without the result check", where(w))
+
+    # ---------------------------------------------------------------- R10.3
+    rep.rule("R10.3")
+    for f in reseq:
+        rep.instance()
+        s = ctx.effects.summary(f)
+        attrs = {(a, k) for (r, a, k) in s.writes if r in ("self", "kwargs")}
+        extra = sorted(x for x in attrs if x[0] not in ("_sequence",))
+        if extra:
+            sites = []
+            for wkey, lst in s.sites.items():
+                if wkey[1] != "_sequence" and wkey[0] in ("self", "kwargs"):
+                    sites.extend(lst)
+            rep.violation(f.qualname, f"writes {extra}", f"resequencing must change nothing but sequence numbers; written at {sites[:2]}", where(f))
+        elif ("_sequence", "store") not in attrs:
+            rep.violation(f.qualname, "writes nothing", "resequence does not store any sequence number", where(f))
+        else:
+            rep.ok(f"{f.qualname}: transitive write-set", "{_sequence}", where=where(f))
+
+    # ---------------------------------------------------------------- R10.4
+    rep.rule("R10.4")
+    for f in reseq:
+        _traversal(ctx, rep, f)
+
+
+def _before(cfg, g: ast.If, cn: Node) -> bool:
+    gn = None
+    for c in cfg.live:
+        if c.kind == "cond" and any(c.ast is x for x in ast.walk(g.test)):
+            gn = c
+            break
+    if gn is None:
+        return False
+    return cn in cfg.reachable(gn, labels_avoid=("exc",)) and gn not in cfg.reachable(cn, labels_avoid=("exc",))
+
+
+def _traversal(ctx: Ctx, rep: Report, f: Func) -> None:  # noqa: C901
+    cfg = ctx.cfg(f)
+    fors = [n for n in cfg.live if n.kind == "for"]
+    rep.instance()
+    if not fors:
+        rep.violation(f.qualname, "loop", "no loop numbers the items", where(f))
+        return
+    loop = fors[0]
+    it = loop.ast.iter
+    base = it
+    enum_start = None
+    idxvar = None
+    itemvar = src(loop.ast.target)
+    if isinstance(it, ast.Call) and isinstance(it.func, ast.Name) and it.func.id == "enumerate":
+        base = it.args[0]
+        enum_start = 0
+        for kw in it.keywords:
+            if kw.arg == "start":
+                v = ctx.folder.fold(kw.value, f.module)
+                enum_start = v if isinstance(v, int) else None
+        if len(it.args) > 1:
+            v = ctx.folder.fold(it.args[1], f.module)
+            enum_start = v if isinstance(v, int) else None
+        if isinstance(loop.ast.target, ast.Tuple) and len(loop.ast.target.elts) == 2:
+            idxvar, itemvar = src(loop.ast.target.elts[0]), src(loop.ast.target.elts[1])
+    paths = function_paths(cfg)
+    env0 = paths[0].env if paths else {}
+    defs: Dict[str, List[ast.AST]] = {}
+    for n in own_nodes(f.node):
+        if isinstance(n, ast.Assign) and len(n.targets) == 1 and isinstance(n.targets[0], ast.Name):
+            defs.setdefault(n.targets[0].id, []).append(n.value)
+        elif isinstance(n, ast.AnnAssign) and isinstance(n.target, ast.Name) and n.value is not None:
+            defs.setdefault(n.target.id, []).append(n.value)
+    bsrc = src(base)
+    bdef = defs.get(bsrc, [None])[0] if isinstance(base, ast.Name) else base
+    okbase = bdef is not None and ("self._items" in src(bdef) or "self.items" in src(bdef)) and not any(w in src(it) for w in ("reversed", "sorted", "[::-1]"))
+    if okbase:
+        rep.ok(f"{f.qualname}: for ... in {snippet(it, 50)}", f"list order of {snippet(bdef, 50)}", where=where(f, it))
+    else:
+        rep.violation(f.qualname, f"for ... in {snippet(it)}", "items are not numbered in the order of the item list (rendered order)", where(f, it))
+    # every item gets its number: each path through the body passes a store to <item>.sequence
+    body_start = [s for lab, s in loop.succ if lab == "body"]
+    rep.instance()
+
+    def is_number_store(n: Node) -> bool:
+        if n.kind == "stmt" and isinstance(n.ast, ast.Assign):
+            for t in n.ast.targets:
+                if isinstance(t, ast.Attribute) and t.attr in ("sequence", "_sequence") and src(t.value) == itemvar:
+                    return True
+        return False
+
+    stores = [n for n in cfg.live if is_number_store(n)]
+    if not stores:
+        rep.violation(f.qualname, f"{itemvar}.sequence = ...", "no statement stores the number on the item", where(f))
+        return
+    if body_start and (is_number_store(body_start[0]) or cfg.all_paths_pass(body_start[0], loop, is_number_store, labels_avoid=("exc",))):
+        rep.ok(f"{f.qualname}: {snippet(stores[0].ast)}", "on every path through the loop body", where=where(f, stores[0].ast))
+    else:
+        rep.violation(f.qualname, snippet(stores[0].ast), "some path through the loop body skips numbering the item", where(f, stores[0].ast))
+    run_var = src(stores[0].ast.value)
+    # running variable: initialised from start; returned
+    rep.instance()
+    init = defs.get(run_var, [])
+    p_start = f.params[1] if len(f.params) > 1 else "start"
+    p_step = f.params[2] if len(f.params) > 2 else "step"
+    init_ok = any(mentions(d, p_start) and not mentions(d, run_var) for d in init)
+    rets = [n for n in cfg.live if n.kind == "stmt" and isinstance(n.ast, ast.Return)]
+    ret_ok = bool(rets) and all(r.ast.value is not None and src(r.ast.value) == run_var for r in rets)
+    if init_ok and ret_ok:
+        rep.ok(f"{f.qualname}: running number {run_var}", f"initialised from {p_start}, stored on each item, returned", where=where(f))
+    else:
+        rep.violation(f.qualname, f"running number {run_var}", f"must start from {p_start} and be the returned value (init from start: {init_ok}, returned: {ret_ok})", where(f))
+    # increment: `run_var += step` only when the item is not the last one
+    rep.instance()
+    incs = [n for n in cfg.live if n.kind == "stmt" and isinstance(n.ast, ast.AugAssign) and src(n.ast.target) == run_var]
+    other_updates = [n for n in cfg.live if n.kind == "stmt" and isinstance(n.ast, ast.Assign) and any(isinstance(t, ast.Name) and t.id == run_var for t in n.ast.targets)]
+    if len(incs) != 1 or not isinstance(incs[0].ast.op, ast.Add) or src(incs[0].ast.value) != p_step:
+        rep.violation(f.qualname, "; ".join(snippet(n.ast) for n in incs) or "no increment", f"the running number must advance by `{p_step}` exactly once per item", where(f))
+    else:
+        inc = incs[0]
+        deps = cfg.control_deps(inc)
+        conds = [(c, lab) for c, lab in deps if c.kind == "cond"]
+        N = 1000
+        okc = False
+        why = "the increment is unconditional: the returned value is one step beyond the last number and the next block starts too high"
+        for c, lab in conds:
+            symenv = {"count": N, f"len({bsrc})": N}
+            for k, v in defs.items():
+                if v and src(v[0]) == f"len({bsrc})":
+                    symenv[k] = N
+            if idxvar is None or enum_start is None:
+                continue
+            try:
+                s_ = cond_to_intset(c.ast, lambda x: isinstance(x, ast.Name) and x.id == idxvar, lambda x: ctx.folder.fold(x, f.module, symenv))
+            except NotInterval:
+                continue
+            if lab == "F":
+                s_ = s_.complement()
+            dom = IntSet([(enum_start, enum_start + N - 1)])
+            got = s_.intersect(dom)
+            wantset = IntSet([(enum_start, enum_start + N - 2)])
+            if got == wantset:
+                okc = True
+            else:
+                why = f"the increment runs for positions {got} of {dom} (expected all but the last)"
+        if okc:
+            rep.ok(f"{f.qualname}: {snippet(inc.ast)}", "for every item except the last", where=where(f, inc.ast))
+        else:
+            rep.violation(f.qualname, snippet(inc.ast), why, where(f, inc.ast))
+    # descent into groups (only where the class holds groups)
+    rec = []
+    for e in ctx.cg.all_edges(f):
+        if e.kind == "call" and isinstance(e.target, Func) and e.target.name == "resequence" and isinstance(e.site, ast.Call):
+            rec.append(e.site)
+    rec = list({id(x): x for x in rec}.values())
+    if f.cls is not None and f.cls.name in ("AceGroup", "Acl"):
+        rep.instance()
+        if not rec:
+            rep.violation(f.qualname, "nested groups", "the numbering does not descend into nested groups: lines inside groups keep their old numbers", where(f))
+            return
+        call = rec[0]
+        cn = cfg.node_containing(call)
+        kw = {k.arg: k.value for k in call.keywords if k.arg}
+        star = [k.value for k in call.keywords if k.arg is None]
+        items_arg = kw.get("items")
+        if items_arg is None:
+            for sname in star:
+                d = defs.get(src(sname), [None])[0]
+                if isinstance(d, ast.Call) and src(d.func) == "dict":
+                    for k in d.keywords:
+                        if k.arg == "items":
+                            items_arg = k.value
+                elif isinstance(d, ast.Dict):
+                    for k, v in zip(d.keys, d.values):
+                        if isinstance(k, ast.Constant) and k.value == "items":
+                            items_arg = v
+        ok_items = items_arg is not None and src(items_arg) in (f"{itemvar}.items", f"{itemvar}._items")
+        ok_start = "start" in kw and src(kw["start"]) == run_var
+        ok_step = "step" in kw and src(kw["step"]) == p_step
+        assigns = isinstance(cn.ast, ast.Assign) and any(isinstance(t, ast.Name) and t.id == run_var for t in cn.ast.targets) if cn is not None else False
+        before_store = cn is not None and all(cn not in cfg.reachable(s, labels_avoid=("exc",)) or loop in cfg.reachable(s, labels_avoid=("exc",)) for s in stores)
+        guarded = cn is not None and any(c.kind == "cond" and "isinstance" in src(c.ast) and itemvar in src(c.ast) and lab == "T" for c, lab in cfg.control_deps(cn))
+        through_decorated = isinstance(call.func, ast.Attribute) and src(call.func.value) in ("self", itemvar)
+        if ok_items and ok_start and ok_step and assigns and guarded and through_decorated:
+            rep.ok(f"{f.qualname}: {snippet(call, 70)}", f"descends into {itemvar}.items from the running number through the decorated method; its result becomes the running number", where=where(f, call))
+        else:
+            rep.violation(
+                f.qualname,
+                snippet(call),
+                f"descent into a nested group must be `{run_var} = self.resequence(start={run_var}, step={p_step}, items={itemvar}.items)` under an isinstance guard "
+                f"(items={ok_items}, start={ok_start}, step={ok_step}, result kept={assigns}, guarded={guarded})",
+                where(f, call),
+            )
